@@ -12,6 +12,7 @@ package c17
 
 import (
 	"bytes"
+	"crypto/sha256"
 	"encoding/hex"
 	"fmt"
 	"math/rand"
@@ -117,6 +118,10 @@ func (n *node) restart() error {
 	nc.App = a
 	n.c = &nc
 	n.stats["restarts"]++
+	// the injected messages of a history run between blocks; on a real node nothing runs before the first BeginBlock after
+	// a restart, which is where x/capability rebuilds its in-memory index — do that here, as that BeginBlock would
+	hdr := tmproto.Header{ChainID: nc.ChainID, Height: nc.Height, Time: nc.Time}
+	a.CapabilityKeeper.InitMemStore(a.NewUncachedContext(false, hdr))
 	return nil
 }
 
@@ -300,6 +305,25 @@ func storeHashes(c *detx.Chain) string {
 // blockLine = obsLine + the per-store commit hashes of the chain that just executed the block.
 func blockLine(c *detx.Chain, o detx.Obs) string { return obsLine(o) + " stores=" + storeHashes(c) }
 
+// canonLog cuts the Go stack trace that baseapp's default panic recovery (SDK dependency code) appends to the log of a
+// transaction whose handler panicked ("recovered: <value>\nstack:\n<goroutine N [running]: …>"): the log is not part of
+// the results hash and CometBFT specifies it as non-deterministic; everything before the trace is still compared.
+func canonLog(l string) string {
+	if i := strings.Index(l, "\nstack:\n"); i >= 0 && strings.Contains(l, "recovered: ") {
+		return l[:i]
+	}
+	return l
+}
+
+// fullResults: digest over code, codespace, data, gas, canonical log and info of every transaction result.
+func fullResults(o detx.Obs) string {
+	h := sha256.New()
+	for _, r := range o.TxResults {
+		fmt.Fprintf(h, "%d|%s|%x|%d|%d|%d:%s|%d:%s|", r.Code, r.Codespace, r.Data, r.GasWanted, r.GasUsed, len(canonLog(r.Log)), canonLog(r.Log), len(r.Info), r.Info)
+	}
+	return hex.EncodeToString(h.Sum(nil)[:12])
+}
+
 // obsLine is the compared observation of one block: the detx line plus the gas used by every transaction.
 func obsLine(o detx.Obs) string {
 	gas := make([]string, 0, len(o.TxResults))
@@ -310,7 +334,15 @@ func obsLine(o detx.Obs) string {
 	if g == "" {
 		g = "-"
 	}
-	return o.Line() + " gas=" + g
+	// detx's own `fullres` digest covers the raw log; replace it by the digest over the canonical log
+	var fields []string
+	for _, f := range strings.Fields(o.Line()) {
+		if strings.HasPrefix(f, "fullres=") {
+			f = "fullres=" + fullResults(o)
+		}
+		fields = append(fields, f)
+	}
+	return strings.Join(fields, " ") + " gas=" + g
 }
 
 // replayMode executes a history on a fresh node in the given mode and returns the observation lines.
